@@ -27,7 +27,7 @@ def recipe_weights(ctx):
     import recipes
     rng = ctx.rng
     R = [rc for rc in recipes.recipes() if rc.weights]
-    for it in range(ctx.n(4, 20)):
+    for it in range(ctx.n(6, 24)):
         for rc in R:
             if not ctx.time_left():
                 return
@@ -37,12 +37,12 @@ def recipe_weights(ctx):
             wd = [d for d in dd if rng.random() < 0.6]
             w = gens.rand_da(rng, sizes, dims=wd, lo=1, hi=3, shuffle=False)
             w = w.assign_coords({d: xs[0][d] for d in wd})
-            if rng.random() < 0.5 and wd:
+            if it % 2 == 0 and wd:      # every other pass: a NaN weight at a slot where the data may be valid
                 vals = w.values.copy()
                 vals.flat[rng.randrange(vals.size)] = np.nan
                 w = w.copy(data=vals)
             kw0 = {}
-            if rc.dims_kw and rng.random() < 0.6:
+            if rc.dims_kw and it % 3 != 0 and rng.random() < 0.7:      # every third pass keeps the default request (reduce everything)
                 sub = [d for d in dd if rng.random() < 0.5]
                 kw0 = {"reduce_dims": sub} if rng.random() < 0.5 else {"preserve_dims": sub}
 
@@ -74,7 +74,17 @@ def recipe_weights(ctx):
             ok, why = scorelib.same_result(call(xr.ones_like(w)), call(None))
             if not ok:
                 ctx.violation(f"{rc.name}: unit weights change the result: {why}", desc, "same as unweighted", why)
-            if rc.kind == "mean" and rc.dims_kw and kw0:
+            # a weight given as a 0-d array acts like the constant it holds
+            c0 = rng.choice([0.5, 2.0, 3.0])
+            r0, ru = call(xr.DataArray(c0)), call(None)
+            if r0[0] == "ok" and ru[0] == "ok":
+                ok, why = scorelib.same_value(r0[1], ru[1] * c0 if rc.kind == "mean" else ru[1])
+                if not ok:
+                    ctx.violation(f"{rc.name}: a 0-d weight array holding {c0} does not act like the constant weight {c0}: {why}", dict(desc, c=c0),
+                                  "c * unweighted" if rc.kind == "mean" else "unweighted", why)
+            elif r0[0] != ru[0]:
+                ctx.violation(f"{rc.name}: a 0-d weight array raises {r0[1]}", desc, "a value", r0[1])
+            if rc.kind == "mean" and rc.dims_kw:
                 # "before averaging": the aggregated score is the NaN-skipping mean of the weighted pointwise scores
                 pw_w = call(w, {"preserve_dims": "all"})
                 if pw_w[0] == "ok":
